@@ -70,6 +70,34 @@ Example ex_affine_run :
   [0; 0; 0; 0; 62; 17; 15]%Z.
 Proof. vm_compute. reflexivity. Qed.
 
+(** the flip item (modifier type unit): the flip of modify(0,3) is still pending at the root when the
+    searches run; they must push it down: lower_bound(0, ones >= 1) = Some 0, lower_bound_rev(3, ones >= 2) = Some 2 *)
+Definition ex_fl_ops : list (op flip unit pred) :=
+  [ONew 4 (fl_new 0); OModify 0 3 tt; OLowerBound 0 (PFst (PGe 1%Z)); OLowerBoundRev 3 (PFst (PGe 2%Z));
+   OModify 1 2 tt; OAsk 0 3; OAsk 1 1; ODebug].
+Example ex_flip_run :
+  model_outs kit_flip ex_fl_ops =
+  [OUnit; OUnit;
+   OBound (Some 0) [FL 4 4 false; FL 2 2 false; FL 1 1 false];
+   OBound (Some 2) [FL 4 4 false; FL 2 2 false; FL 1 1 false; FL 2 2 false];
+   OUnit; OItem (FL 2 4 false); OItem (FL 0 1 false);
+   OItems [FL 1 1 true; FL 0 1 false; FL 0 1 false; FL 1 1 true]].
+Proof. vm_compute. reflexivity. Qed.
+Example ex_flip_history :
+  Forall2 (out_match (k_obs kit_flip) (k_vmerge kit_flip) (k_pv kit_flip) (k_obs kit_flip (k_dflt kit_flip)))
+          (model_outs kit_flip ex_fl_ops) (spec_outs kit_flip ex_fl_ops).
+Proof. exact (c01_kit_history _ _ _ kit_flip fl_pending c01_flip_lawful ex_fl_ops). Qed.
+
+(** leaves may carry a lazy tag of their own (MinAdd { v: 3, md: 7 } as first element of a slice / fill value):
+    the tag is never pushed anywhere, the inner nodes are rebuilt by update = merge (md = 0), the array is [3; 5] *)
+Definition ex_md_ops : list (op vadd Z pred) :=
+  [OFromSlice [VA 3 7; VA 5 0]; OAsk 1 1; OAsk 0 0; OAsk 0 1; ONew 3 (VA 4 9); OAsk 1 2; OAsk 2 2; ODebug].
+Example ex_md_run :
+  model_outs kit_minadd ex_md_ops =
+  [OUnit; OItem (VA 5 0); OItem (VA 3 7); OItem (VA 3 0); OUnit; OItem (VA 4 0); OItem (VA 4 9);
+   OItems [VA 4 9; VA 4 9; VA 4 9]].
+Proof. vm_compute. reflexivity. Qed.
+
 (** side by side: a Combinator<MinAdd, MaxAdd> history without searches projects onto the MinAdd history *)
 Definition ex_c2_ops : list (op (vadd * vadd) Z pred) :=
   [ONew 5 (VA 3 0, VA 3 0); OModify 1 3 4%Z; OSet 2 (VA (-7) 0, VA (-7) 0); OAsk 0 4; OAsk 2 3; ODebug].
